@@ -117,7 +117,11 @@ impl Stage for Ends {
             let net = SimNet::new(Box::new(move |d: &Dgram| {
                 if permille > 0 && d.from == node {
                     if let Ok(KMsg { body: KBody::Query(KQuery::GetPeers { .. } | KQuery::Announce { .. }), .. }) = KMsg::decode(d.bytes) {
-                        let h = splitmix(fseed ^ (d.seq as u64) << 16 ^ d.to.port() as u64);
+                        let ip = match d.to.ip() {
+                            std::net::IpAddr::V4(a) => u32::from(a) as u64,
+                            std::net::IpAddr::V6(a) => u128::from(a) as u64,
+                        };
+                        let h = splitmix(splitmix(fseed ^ ip) ^ (d.seq as u64) << 16 ^ d.to.port() as u64);
                         if h % 1000 < permille {
                             *f2.lock().unwrap() += 1;
                             return Fate::SendError;
@@ -216,6 +220,12 @@ impl Stage for Ends {
             let log = net.log();
             let failed_sends = *failed.lock().unwrap();
             let obs = observe_searches(&log, node, &H);
+            if std::env::var_os("VERIF_DEBUG").is_some() {
+                eprintln!("t_search={t_search} t_close={t_close} failed_sends={failed_sends} searches={}", obs.len());
+                for e in log.iter().filter(|e| e.from == node && e.ms() >= t_search) {
+                    eprintln!("  {} {:?} -> {} {}", e.ms(), e.kind, e.to, KMsg::decode(&e.bytes).map(|m| format!("{:?}", m.body).chars().take(40).collect::<String>()).unwrap_or_default());
+                }
+            }
             let o = obs.iter().find(|o| o.get_peers.iter().any(|g| g.0 >= t_search));
             let Some(o) = o else {
                 // nothing was sent: only legitimate without a good node
